@@ -548,6 +548,26 @@ func runC01(r *Rand, tier string, o *Out) {
 		}
 		o.Count("big:around-64KiB")
 	}
+	// … and a stream that ends inside such a payload — right behind the header, in the middle, one byte short: the
+	// message is not read back (self-delimiting: exactly header + payload bytes, or an error)
+	for _, sz := range []int{65537, 70000, 131073} {
+		h, _ := genHeader(r, true)
+		p := r.Bytes(sz)
+		h.Size = uint32(len(p))
+		w := wireOf(h, p)
+		for _, k := range []int{28, 29, 28 + r.Intn(sz), 28 + 65536, len(w) - 1} {
+			op := "msg.read 1 e:" + hx(w[:k])
+			if k > 40 && r.Bool() {
+				c := 1 + r.Intn(k-1)
+				op = "msg.read 1 d:" + hx(w[:c]) + " e:" + hx(w[c:k])
+			}
+			res := o.Do("P", op, true)
+			o.Count("big:stream-ends-inside-the-payload")
+			if res != "err" && res != "eof" {
+				o.Fail("a message whose payload is cut short is read back", fmt.Sprintf("msg.read, %d of %d bytes => %s", k, len(w), tail2(res, 60)))
+			}
+		}
+	}
 	// … written to a writer that takes them in pieces
 	for _, sz := range []int{65535, 65536, 70000, 131072} {
 		h, _ := genHeader(r, true)
